@@ -158,7 +158,7 @@ Qed.
 
 Lemma wf_step s o : wf s -> wf (step s o).
 Proof.
-  intros W. destruct o as [i f ok|i| | |b|oc oi|i k|c k|l|]; cbn.
+  intros W. destruct o as [i f ok|i| | |b|oc oi|i k|c k|l| |]; cbn.
   - exact (wf_same_links s _ eq_refl eq_refl W).
   - destruct (cget (cache s) i); [exact (wf_same_links s _ eq_refl eq_refl W) | exact W].
   - exact (wf_same_links s _ eq_refl eq_refl W).
@@ -177,6 +177,7 @@ Proof.
   - destruct (lget (cleanup s) l) as [c|]; auto. destruct W as [Wr Wc]. split; cbn; auto.
     intros l' c'. unfold lget. rewrite lget_mdel. destruct (lname_eqb l l'); [discriminate | apply Wc].
   - exact (wf_same_links s _ eq_refl eq_refl W).
+  - split; cbn; intros; discriminate.
 Qed.
 
 Lemma wf_run ops : forall s, wf s -> wf (run ops s).
@@ -240,4 +241,534 @@ Lemma created_configures s i f oc oi :
 Proof.
   intros Ha Hr Hc. cbn. rewrite Ha, Hr. cbn. unfold configure. rewrite Hc.
   destruct (aget (apps s) (i, f)); cbn; unfold rget; rewrite rget_mset, Z.eqb_refl; reflexivity.
+Qed.
+
+(** * Ordered iteration over a set *)
+Section Arrange.
+  Context {A : Type} (eqb : A -> A -> bool).
+  Hypothesis eqb_spec : forall a b, eqb a b = true <-> a = b.
+
+  Lemma memb_In x l : memb eqb x l = true <-> In x l.
+  Proof.
+    induction l as [|y r IH]; cbn; [split; [discriminate | tauto]|].
+    rewrite orb_true_iff, IH, eqb_spec. tauto.
+  Qed.
+  Lemma memb_false x l : memb eqb x l = false <-> ~ In x l.
+  Proof. rewrite <- memb_In. destruct (memb eqb x l); split; congruence. Qed.
+
+  Lemma dedupb_In x l : In x (dedupb eqb l) <-> In x l.
+  Proof.
+    induction l as [|y r IH]; cbn; [tauto|].
+    destruct (memb eqb y r) eqn:E.
+    - rewrite IH. apply memb_In in E. split; [auto | intros [H|H]; [subst; auto | auto]].
+    - cbn. rewrite IH. tauto.
+  Qed.
+  Lemma dedupb_NoDup l : NoDup (dedupb eqb l).
+  Proof.
+    induction l as [|y r IH]; cbn; [constructor|].
+    destruct (memb eqb y r) eqn:E; auto. constructor; auto. rewrite dedupb_In. now apply memb_false.
+  Qed.
+
+  Lemma arrangeb_In ord l x : In x (arrangeb eqb ord l) <-> In x l.
+  Proof.
+    unfold arrangeb. rewrite in_app_iff, !filter_In, dedupb_In, memb_In, negb_true_iff, memb_false.
+    split; [tauto|]. intros H. destruct (memb eqb x ord) eqn:E.
+    - left. split; auto. now apply memb_In.
+    - right. split; auto. now apply memb_false.
+  Qed.
+
+  Lemma NoDup_filter' (f : A -> bool) l : NoDup l -> NoDup (filter f l).
+  Proof.
+    induction 1 as [|x l Hx Hl IH]; cbn; [constructor|].
+    destruct (f x); auto. constructor; auto. rewrite filter_In. tauto.
+  Qed.
+
+  Lemma arrangeb_NoDup ord l : NoDup l -> NoDup (arrangeb eqb ord l).
+  Proof.
+    intros Hl. unfold arrangeb.
+    assert (H1 := NoDup_filter' (fun x => memb eqb x l) _ (dedupb_NoDup ord)).
+    assert (H2 := NoDup_filter' (fun x => negb (memb eqb x ord)) _ Hl).
+    assert (Hd : forall x, In x (filter (fun x => memb eqb x l) (dedupb eqb ord)) ->
+                           ~ In x (filter (fun x => negb (memb eqb x ord)) l)).
+    { intros x HA HB. rewrite filter_In in HA, HB. destruct HA as [HA _]. destruct HB as [_ HB].
+      rewrite dedupb_In in HA. apply negb_true_iff in HB. apply memb_false in HB. exact (HB HA). }
+    revert H1 H2 Hd. generalize (filter (fun x => memb eqb x l) (dedupb eqb ord)) as l1.
+    generalize (filter (fun x => negb (memb eqb x ord)) l) as l2.
+    intros l2 l1 H1 H2. induction H1 as [|x l1 Hx Hl1 IH]; cbn; intros Hd; auto.
+    constructor.
+    - rewrite in_app_iff. intros [H|H]; [auto | apply (Hd x); cbn; auto].
+    - apply IH. intros y Hy. apply Hd. cbn; auto.
+  Qed.
+End Arrange.
+
+Lemma NoDup_split {A} (c : A) l : NoDup l -> In c l -> exists l1 l2, l = l1 ++ c :: l2 /\ ~ In c l1 /\ ~ In c l2.
+Proof.
+  intros Hnd Hin. destruct (in_split _ _ Hin) as (l1 & l2 & ->).
+  exists l1, l2. split; auto. apply NoDup_remove_2 in Hnd. rewrite in_app_iff in Hnd. tauto.
+Qed.
+
+(** * One instance's view of the state; steps about other instances do not change it *)
+Definition same_inst (i : inst) (s s' : st) : Prop :=
+  cget (cache s') i = cget (cache s) i /\
+  rget (running s') i = rget (running s) i /\
+  lget (cleanup s') (LInst i) = lget (cleanup s) (LInst i) /\
+  (forall f, lget (cleanup s') (LCont (i, f)) = lget (cleanup s) (LCont (i, f))) /\
+  (forall f, aget (apps s') (i, f) = aget (apps s) (i, f)).
+
+Lemma same_inst_refl i s : same_inst i s s.
+Proof. repeat split; auto. Qed.
+
+Lemma same_inst_trans i s1 s2 s3 : same_inst i s1 s2 -> same_inst i s2 s3 -> same_inst i s1 s3.
+Proof.
+  intros (A1 & A2 & A3 & A4 & A5) (B1 & B2 & B3 & B4 & B5).
+  repeat split; intros; congruence.
+Qed.
+
+Lemma same_inst_sym i s1 s2 : same_inst i s1 s2 -> same_inst i s2 s1.
+Proof. intros (A1 & A2 & A3 & A4 & A5). repeat split; intros; symmetry; auto. Qed.
+
+Lemma configure_other s i j : j <> i -> same_inst i s (fst (configure s j)).
+Proof.
+  intros Hj. assert (E : Z.eqb j i = false) by (apply Z.eqb_neq; congruence).
+  unfold configure. destruct (cget (cache s) j) as [[f [|]]|]; cbn [fst]; [| | apply same_inst_refl].
+  - assert (Ea : forall f', cont_eqb (j, f) (i, f') = false).
+    { intros f'. apply cont_eqb_false. intros H; inversion H; congruence. }
+    destruct (aget (apps s) (j, f)); cbn; repeat split; cbn; auto;
+      try (unfold rget; rewrite rget_mset, E; reflexivity).
+    intros f'. unfold aget. rewrite aget_mset, Ea. reflexivity.
+  - repeat split; cbn; auto. unfold cget. rewrite cget_mdel, E. reflexivity.
+Qed.
+
+Lemma terminate_other s i j : j <> i -> wf s -> same_inst i s (terminate s j).
+Proof.
+  intros Hj [W1 _]. assert (E : Z.eqb j i = false) by (apply Z.eqb_neq; congruence).
+  unfold terminate. destruct (rget (running s) j) as [c|] eqn:Hr; [|apply same_inst_refl].
+  assert (Hc : app_name c = j) by (now apply W1).
+  repeat split; cbn; auto.
+  - unfold rget. rewrite rget_mdel, E. reflexivity.
+  - unfold lget. rewrite lget_mset. reflexivity.
+  - intros f. unfold lget. rewrite lget_mset.
+    assert (El : lname_eqb (LCont c) (LCont (i, f)) = false).
+    { apply lname_eqb_false. intros H; inversion H; subst. cbn in Hj. congruence. }
+    now rewrite El.
+Qed.
+
+Lemma add_inst_link_other s i c' :
+  app_name c' <> i -> same_inst i s (with_cleanup s (mset lname_eqb (cleanup s) (LInst (app_name c')) c')).
+Proof.
+  intros Hj. repeat split; cbn; auto.
+  - unfold lget. rewrite lget_mset.
+    assert (El : lname_eqb (LInst (app_name c')) (LInst i) = false).
+    { apply lname_eqb_false. intros H; inversion H; congruence. }
+    now rewrite El.
+  - intros f. unfold lget. rewrite lget_mset. reflexivity.
+Qed.
+
+Lemma mget_mdel_other_z {V} (m : list (inst * V)) j i : j <> i -> mget Z.eqb (mdel Z.eqb m j) i = mget Z.eqb m i.
+Proof.
+  intros Hj. rewrite (mget_mdel Z.eqb zeqb_spec). destruct (Z.eqb j i) eqn:E; auto. apply Z.eqb_eq in E. congruence.
+Qed.
+
+Lemma sync_container_other s cached c' i :
+  app_name c' <> i -> wf s ->
+  same_inst i s (fst (sync_container (s, cached) c')) /\
+  mget Z.eqb (snd (sync_container (s, cached) c')) i = mget Z.eqb cached i.
+Proof.
+  intros Hj W. unfold sync_container.
+  destruct (target_exists s (rget (running s) (app_name c'))).
+  { cbn [fst snd]. split; [|now apply mget_mdel_other_z].
+    destruct (match mget Z.eqb cached (app_name c') with Some c'0 => cont_eqb c'0 c' | None => false end);
+      [apply same_inst_refl | now apply terminate_other]. }
+  destruct (target_exists s (lget (cleanup s) (LInst (app_name c')))).
+  { cbn [fst snd]. split; [apply same_inst_refl | now apply mget_mdel_other_z]. }
+  destruct (match mget Z.eqb cached (app_name c') with Some c'0 => cont_eqb c'0 c' | None => false end).
+  - destruct (match aget (apps s) c' with Some f => flagged f | None => false end).
+    + cbn [fst snd]. split; [now apply add_inst_link_other | now apply mget_mdel_other_z].
+    + destruct (configure s (app_name c')) as [s1 ok] eqn:Hc.
+      assert (S1 : same_inst i s s1) by (change s1 with (fst (s1, ok)); rewrite <- Hc; now apply configure_other).
+      cbn [fst snd]. split; [|now apply mget_mdel_other_z].
+      destruct ok; auto. eapply same_inst_trans; [exact S1 | now apply add_inst_link_other].
+  - cbn [fst snd]. split; [now apply add_inst_link_other | reflexivity].
+Qed.
+
+Lemma fold_sync_other i l : forall s cached,
+  wf s -> (forall c', In c' l -> app_name c' <> i) ->
+  same_inst i s (fst (fold_left sync_container l (s, cached))) /\
+  mget Z.eqb (snd (fold_left sync_container l (s, cached))) i = mget Z.eqb cached i /\
+  wf (fst (fold_left sync_container l (s, cached))).
+Proof.
+  induction l as [|c' l IH]; intros s cached W Hl; cbn [fold_left].
+  - split; [apply same_inst_refl | split; [reflexivity | exact W]].
+  - destruct (sync_container (s, cached) c') as [s1 c1] eqn:H.
+    assert (Hc : app_name c' <> i) by (apply Hl; cbn; auto).
+    destruct (sync_container_other s cached c' i Hc W) as [S1 M1]. rewrite H in S1, M1. cbn [fst snd] in S1, M1.
+    assert (W1 : wf s1) by (change s1 with (fst (s1, c1)); rewrite <- H; now apply wf_sync_container).
+    destruct (IH s1 c1 W1 (fun x Hx => Hl x (or_intror Hx))) as (S2 & M2 & W2).
+    split; [eapply same_inst_trans; eauto | split; [congruence | exact W2]].
+Qed.
+
+(** the final loop of _synchronize: configure is idempotent on its own instance and a frame for the others *)
+Ltac si_split := split; [|split; [|split; [|split]]].
+Ltac psimpl := cbn [cache apps running cleanup active queue finished with_cache with_apps with_running
+                    with_cleanup with_active with_queue with_finished enqueue fst snd].
+
+Lemma configure_congr s1 s2 i :
+  same_inst i s1 s2 -> same_inst i (fst (configure s1 i)) (fst (configure s2 i)).
+Proof.
+  intros (A1 & A2 & A3 & A4 & A5). unfold configure. rewrite A1.
+  destruct (cget (cache s1) i) as [[f [|]]|] eqn:Hc1; psimpl.
+  - rewrite (A5 f). destruct (aget (apps s1) (i, f)); si_split; psimpl; auto; try congruence.
+    + unfold rget. rewrite !rget_mset. now rewrite Z.eqb_refl.
+    + unfold rget. rewrite !rget_mset. now rewrite Z.eqb_refl.
+    + intros f'. unfold aget. rewrite !aget_mset. destruct (cont_eqb (i, f) (i, f')); auto.
+  - si_split; psimpl; auto. unfold cget. rewrite !cget_mdel. now rewrite Z.eqb_refl.
+  - si_split; auto; congruence.
+Qed.
+
+Lemma configure_idem s i : same_inst i (fst (configure s i)) (fst (configure (fst (configure s i)) i)).
+Proof.
+  destruct (cget (cache s) i) as [[f [|]]|] eqn:Hc.
+  - set (s' := fst (configure s i)).
+    assert (Hc' : cget (cache s') i = Some (f, true)).
+    { unfold s', configure. rewrite Hc. destruct (aget (apps s) (i, f)); exact Hc. }
+    assert (Ha' : exists fl, aget (apps s') (i, f) = Some fl).
+    { unfold s', configure. rewrite Hc. destruct (aget (apps s) (i, f)) eqn:Ha; psimpl.
+      - eexists; exact Ha.
+      - unfold aget. rewrite aget_mset, (proj2 (cont_eqb_spec _ _) eq_refl). eexists; reflexivity. }
+    assert (Hr' : rget (running s') i = Some (i, f)).
+    { unfold s', configure. rewrite Hc. destruct (aget (apps s) (i, f)); psimpl;
+        unfold rget; rewrite rget_mset, Z.eqb_refl; reflexivity. }
+    destruct Ha' as [fl Ha']. unfold configure. rewrite Hc', Ha'. psimpl.
+    si_split; psimpl; auto. rewrite Hr'. unfold rget. rewrite rget_mset, Z.eqb_refl. reflexivity.
+  - assert (Hc' : cget (cache (fst (configure s i))) i = None).
+    { unfold configure. rewrite Hc. psimpl. unfold cget. rewrite cget_mdel, Z.eqb_refl. reflexivity. }
+    unfold configure at 2. rewrite Hc'. apply same_inst_refl.
+  - unfold configure. rewrite Hc. psimpl. rewrite Hc. apply same_inst_refl.
+Qed.
+
+Lemma final_loop_not_in i l : forall s, ~ In i l -> same_inst i s (fold_left (fun s j => fst (configure s j)) l s).
+Proof.
+  induction l as [|j l IH]; intros s Hn; cbn [fold_left]; [apply same_inst_refl|].
+  eapply same_inst_trans; [apply (configure_other s i j) | apply IH].
+  - intros ->. apply Hn. cbn; auto.
+  - intros H. apply Hn. cbn; auto.
+Qed.
+
+Lemma final_loop_after i l : forall s0 s,
+  same_inst i (fst (configure s0 i)) s -> same_inst i (fst (configure s0 i)) (fold_left (fun s j => fst (configure s j)) l s).
+Proof.
+  induction l as [|j l IH]; intros s0 s Hs; cbn [fold_left]; auto.
+  apply IH. destruct (Z.eq_dec j i) as [->|Hj].
+  - eapply same_inst_trans; [apply configure_idem|]. now apply configure_congr.
+  - eapply same_inst_trans; [exact Hs | now apply configure_other].
+Qed.
+
+Lemma final_loop_in i l : forall s, In i l -> same_inst i (fst (configure s i)) (fold_left (fun s j => fst (configure s j)) l s).
+Proof.
+  induction l as [|j l IH]; intros s Hin; [destruct Hin|]. cbn [fold_left].
+  destruct (Z.eq_dec j i) as [->|Hj].
+  - apply final_loop_after. apply same_inst_refl.
+  - destruct Hin as [->|Hin]; [congruence|].
+    eapply same_inst_trans; [|apply (IH _ Hin)].
+    apply configure_congr. now apply configure_other.
+Qed.
+
+(** * What _synchronize does to an instance whose only container directory is [c] *)
+Lemma cont_eta (c : cont) : c = (app_name c, snd c).
+Proof. destruct c; reflexivity. Qed.
+
+Lemma target_exists_congr i s1 s2 (o : option cont) :
+  same_inst i s1 s2 -> (forall c, o = Some c -> app_name c = i) ->
+  target_exists s2 o = target_exists s1 o.
+Proof.
+  intros (_ & _ & _ & _ & A5) Ho. destruct o as [c|]; cbn; auto.
+  rewrite (cont_eta c), (Ho c eq_refl). now rewrite A5.
+Qed.
+
+Lemma terminate_congr i s1 s2 :
+  same_inst i s1 s2 -> same_inst i (terminate s1 i) (terminate s2 i).
+Proof.
+  intros (A1 & A2 & A3 & A4 & A5). unfold terminate. rewrite A2.
+  destruct (rget (running s1) i) as [c|] eqn:Hr; [|si_split; auto; congruence].
+  si_split; psimpl; auto.
+  - unfold rget. rewrite !rget_mdel. now rewrite Z.eqb_refl.
+  - unfold lget. rewrite !lget_mset. cbn. exact A3.
+  - intros f. unfold lget. rewrite !lget_mset. destruct (lname_eqb (LCont c) (LCont (i, f))); auto.
+Qed.
+
+Lemma add_link_congr i s1 s2 c :
+  same_inst i s1 s2 ->
+  same_inst i (with_cleanup s1 (mset lname_eqb (cleanup s1) (LInst i) c))
+              (with_cleanup s2 (mset lname_eqb (cleanup s2) (LInst i) c)).
+Proof.
+  intros (A1 & A2 & A3 & A4 & A5). si_split; psimpl; auto.
+  - unfold lget. rewrite !lget_mset. now rewrite (proj2 (lname_eqb_spec _ _) eq_refl).
+  - intros f. unfold lget. rewrite !lget_mset. cbn. apply A4.
+Qed.
+
+Lemma sync_container_congr i f0 s1 s2 c1 c2 :
+  same_inst i s1 s2 -> wf s1 -> mget Z.eqb c2 i = mget Z.eqb c1 i ->
+  same_inst i (fst (sync_container (s1, c1) (i, f0))) (fst (sync_container (s2, c2) (i, f0))) /\
+  mget Z.eqb (snd (sync_container (s2, c2) (i, f0))) i = mget Z.eqb (snd (sync_container (s1, c1) (i, f0))) i.
+Proof.
+  intros S [W1 W2] Hc. assert (S' := S). destruct S' as (A1 & A2 & A3 & A4 & A5).
+  unfold sync_container. cbn [app_name fst].
+  rewrite Hc, A2, A3, (A5 f0).
+  rewrite (target_exists_congr i s1 s2 (rget (running s1) i) S) by (intros c H; now apply W1).
+  rewrite (target_exists_congr i s1 s2 (lget (cleanup s1) (LInst i)) S).
+  2:{ intros c H. destruct (W2 _ _ H) as [E|E]; inversion E; auto. }
+  assert (Hdel : mget Z.eqb (mdel Z.eqb c2 i) i = mget Z.eqb (mdel Z.eqb c1 i) i).
+  { rewrite !(mget_mdel Z.eqb zeqb_spec). now rewrite Z.eqb_refl. }
+  destruct (target_exists s1 (rget (running s1) i)).
+  { cbn [fst snd]. split; auto.
+    destruct (match mget Z.eqb c1 i with Some c' => cont_eqb c' (i, f0) | None => false end); auto.
+    now apply terminate_congr. }
+  destruct (target_exists s1 (lget (cleanup s1) (LInst i))); [cbn [fst snd]; split; auto|].
+  destruct (match mget Z.eqb c1 i with Some c' => cont_eqb c' (i, f0) | None => false end).
+  - destruct (match aget (apps s1) (i, f0) with Some f => flagged f | None => false end).
+    + cbn [fst snd]. split; auto. now apply add_link_congr.
+    + assert (C := configure_congr s1 s2 i S).
+      assert (Hok : snd (configure s2 i) = snd (configure s1 i)).
+      { unfold configure. rewrite A1. destruct (cget (cache s1) i) as [[f [|]]|]; reflexivity. }
+      destruct (configure s1 i) as [t1 ok1]. destruct (configure s2 i) as [t2 ok2].
+      cbn [fst snd] in *. subst ok2. split; auto. destruct ok1; auto. now apply add_link_congr.
+  - cbn [fst snd]. split; auto. now apply add_link_congr.
+Qed.
+
+Lemma cached0_get (c : list (inst * (Z * bool))) i :
+  mget Z.eqb (map (fun kv => (fst kv, (fst kv, fst (snd kv)))) c) i =
+  match cget c i with Some v => Some (i, fst v) | None => None end.
+Proof.
+  induction c as [|[k v] r IH]; cbn; auto.
+  destruct (Z.eqb k i) eqn:E; auto. apply Z.eqb_eq in E. now subst.
+Qed.
+
+Lemma mget_keys {V} (m : list (inst * V)) i : In i (map fst m) <-> mget Z.eqb m i <> None.
+Proof.
+  induction m as [|[k v] r IH]; cbn; [split; [tauto | congruence]|].
+  destruct (Z.eqb k i) eqn:E.
+  - apply Z.eqb_eq in E. split; [congruence | auto].
+  - apply Z.eqb_neq in E. rewrite IH. split; [intros [H|H]; [congruence | auto] | auto].
+Qed.
+
+Definition cached0 (s : st) := map (fun kv => (fst kv, (fst kv, fst (snd kv)))) (cache s).
+
+(** [lone i f0 s]: apps/ holds exactly one container of instance i, namely (i, f0) *)
+Definition lone (i : inst) (f0 : Z) (s : st) : Prop :=
+  NoDup (map fst (apps s)) /\ In (i, f0) (map fst (apps s)) /\
+  forall c', In c' (map fst (apps s)) -> app_name c' = i -> c' = (i, f0).
+
+(** [none i s]: apps/ holds no container of instance i *)
+Definition none (i : inst) (s : st) : Prop := forall c', In c' (map fst (apps s)) -> app_name c' <> i.
+
+Lemma fold_sync_other_eq i l s cached sA cA :
+  wf s -> (forall c', In c' l -> app_name c' <> i) ->
+  fold_left sync_container l (s, cached) = (sA, cA) ->
+  same_inst i s sA /\ mget Z.eqb cA i = mget Z.eqb cached i /\ wf sA.
+Proof. intros W Ho H. generalize (fold_sync_other i l s cached W Ho). rewrite H. auto. Qed.
+
+Lemma sync_container_congr_eq i f0 s1 s2 c1 c2 t1 d1 t2 d2 :
+  same_inst i s1 s2 -> wf s1 -> mget Z.eqb c2 i = mget Z.eqb c1 i ->
+  sync_container (s1, c1) (i, f0) = (t1, d1) -> sync_container (s2, c2) (i, f0) = (t2, d2) ->
+  same_inst i t1 t2 /\ mget Z.eqb d2 i = mget Z.eqb d1 i.
+Proof. intros S W M H1 H2. generalize (sync_container_congr i f0 s1 s2 c1 c2 S W M). rewrite H1, H2. auto. Qed.
+
+Theorem sync_lone s oc oi i f0 sB cB :
+  wf s -> lone i f0 s ->
+  sync_container (s, cached0 s) (i, f0) = (sB, cB) ->
+  same_inst i (match mget Z.eqb cB i with Some _ => fst (configure sB i) | None => sB end)
+              (synchronize s oc oi).
+Proof.
+  intros W (Hnd & Hin & Hlone) HB0.
+  unfold synchronize. fold (cached0 s).
+  set (conf := arrangeb cont_eqb oc (map fst (apps s))).
+  assert (Hnd' : NoDup conf) by (apply (arrangeb_NoDup cont_eqb cont_eqb_spec); exact Hnd).
+  assert (Hin' : In (i, f0) conf) by (apply (arrangeb_In cont_eqb cont_eqb_spec); exact Hin).
+  destruct (@NoDup_split cont (i, f0) conf Hnd' Hin') as (l1 & l2 & Hconf & Hn1 & Hn2).
+  assert (Hother : forall l, (forall x, In x l -> In x conf) -> ~ In (i, f0) l -> forall c', In c' l -> app_name c' <> i).
+  { intros l Hsub Hn c' Hc' E. apply Hn. rewrite <- (Hlone c'); auto.
+    apply (arrangeb_In cont_eqb cont_eqb_spec oc). apply Hsub. exact Hc'. }
+  assert (Ho1 : forall c', In c' l1 -> app_name c' <> i).
+  { apply Hother; auto. intros x Hx. rewrite Hconf. apply in_or_app. now left. }
+  assert (Ho2 : forall c', In c' l2 -> app_name c' <> i).
+  { apply Hother; auto. intros x Hx. rewrite Hconf. apply in_or_app. right. now right. }
+  rewrite Hconf, fold_left_app. cbn [fold_left].
+  destruct (fold_left sync_container l1 (s, cached0 s)) as [sA cA] eqn:HA.
+  destruct (fold_sync_other_eq i l1 s (cached0 s) sA cA W Ho1 HA) as (SA & MA & WA).
+  destruct (sync_container (sA, cA) (i, f0)) as [sB' cB'] eqn:HB.
+  destruct (sync_container_congr_eq i f0 s sA (cached0 s) cA sB cB sB' cB' SA W MA HB0 HB) as [SB MB].
+  assert (WB : wf sB') by (change sB' with (fst (sB', cB')); rewrite <- HB; now apply wf_sync_container).
+  destruct (fold_left sync_container l2 (sB', cB')) as [sC cC] eqn:HC.
+  destruct (fold_sync_other_eq i l2 sB' cB' sC cC WB Ho2 HC) as (SC & MC & WC).
+  assert (SBC : same_inst i sB sC) by (eapply same_inst_trans; eauto).
+  assert (MBC : mget Z.eqb cC i = mget Z.eqb cB i) by congruence.
+  rewrite <- MBC.
+  destruct (mget Z.eqb cC i) eqn:Hm.
+  - eapply same_inst_trans; [apply configure_congr; exact SBC|].
+    apply final_loop_in. apply (arrangeb_In Z.eqb zeqb_spec). apply mget_keys. congruence.
+  - eapply same_inst_trans; [exact SBC|].
+    apply final_loop_not_in. intros Hin2. apply (arrangeb_In Z.eqb zeqb_spec) in Hin2.
+    apply mget_keys in Hin2. congruence.
+Qed.
+
+(** instance without a container directory: configured iff it is cached *)
+Theorem sync_none s oc oi i :
+  wf s -> none i s ->
+  same_inst i (match cget (cache s) i with Some _ => fst (configure s i) | None => s end)
+              (synchronize s oc oi).
+Proof.
+  intros W Hnone. unfold synchronize. fold (cached0 s).
+  set (conf := arrangeb cont_eqb oc (map fst (apps s))).
+  assert (Ho : forall c', In c' conf -> app_name c' <> i).
+  { intros c' Hc'. apply Hnone. now apply (arrangeb_In cont_eqb cont_eqb_spec oc). }
+  destruct (fold_left sync_container conf (s, cached0 s)) as [sA cA] eqn:HA.
+  destruct (fold_sync_other_eq i conf s (cached0 s) sA cA W Ho HA) as (SA & MA & WA).
+  unfold cached0 in MA. rewrite cached0_get in MA.
+  destruct (cget (cache s) i) as [v|] eqn:Hc; rewrite ?Hc in MA.
+  - eapply same_inst_trans; [apply configure_congr; exact SA|].
+    apply final_loop_in. apply (arrangeb_In Z.eqb zeqb_spec). apply mget_keys.
+    intros Hx. pose proof (eq_trans (eq_sym MA) Hx) as Hy. discriminate Hy.
+  - eapply same_inst_trans; [exact SA|].
+    apply final_loop_not_in. intros Hin2. apply (arrangeb_In Z.eqb zeqb_spec) in Hin2.
+    apply mget_keys in Hin2. exact (Hin2 MA).
+Qed.
+
+Lemma aget_keys (m : list (cont * flags)) c : In c (map fst m) <-> aget m c <> None.
+Proof.
+  unfold aget. induction m as [|[k v] r IH]; cbn; [split; [tauto | congruence]|].
+  destruct (cont_eqb k c) eqn:E.
+  - apply cont_eqb_spec in E. split; [congruence | auto].
+  - apply cont_eqb_false in E. rewrite IH. split; [intros [H|H]; [congruence | auto] | auto].
+Qed.
+
+Lemma cached0_cur s i f0 :
+  match mget Z.eqb (cached0 s) i with Some c' => cont_eqb c' (i, f0) | None => false end =
+  match cget (cache s) i with Some v => Z.eqb (fst v) f0 | None => false end.
+Proof.
+  unfold cached0. rewrite cached0_get. destruct (cget (cache s) i) as [v|]; auto.
+  unfold cont_eqb. cbn. now rewrite Z.eqb_refl.
+Qed.
+
+Lemma cached0_del s i : mget Z.eqb (mdel Z.eqb (cached0 s) i) i = None.
+Proof. rewrite (mget_mdel Z.eqb zeqb_spec). now rewrite Z.eqb_refl. Qed.
+
+(** ** the corollaries used by Props/C13.v; all about one instance [i] whose only container directory is (i, f0) *)
+Section Lone.
+  Variables (s : st) (oc : list cont) (oi : list inst) (i : inst) (f0 : Z).
+  Hypothesis W : wf s.
+  Hypothesis L : lone i f0 s.
+
+  Let s' := synchronize s oc oi.
+
+  Lemma lone_exists : exists fl, aget (apps s) (i, f0) = Some fl.
+  Proof.
+    destruct L as (_ & Hin & _). apply aget_keys in Hin. destruct (aget (apps s) (i, f0)) as [fl|]; [eauto | congruence].
+  Qed.
+
+  (** an unchanged running container is left running *)
+  Lemma sync_keeps_unchanged ok :
+    rget (running s) i = Some (i, f0) -> cget (cache s) i = Some (f0, ok) ->
+    rget (running s') i = Some (i, f0).
+  Proof.
+    intros Hr Hc. destruct lone_exists as [fl Ha].
+    destruct (sync_container (s, cached0 s) (i, f0)) as [sB cB] eqn:HB.
+    assert (S := sync_lone s oc oi i f0 sB cB W L HB).
+    unfold sync_container in HB. cbn [app_name fst] in HB.
+    rewrite Hr in HB. cbn [target_exists] in HB. rewrite Ha in HB.
+    rewrite cached0_cur, Hc in HB. cbn [fst] in HB. rewrite Z.eqb_refl in HB.
+    inversion HB; subst sB cB; clear HB.
+    rewrite cached0_del in S. destruct S as (_ & S2 & _). unfold s'. now rewrite S2.
+  Qed.
+
+  (** a running container whose cache entry disappeared (or was replaced) is handed to cleanup *)
+  Lemma sync_hands_over :
+    rget (running s) i = Some (i, f0) ->
+    (forall ok, cget (cache s) i <> Some (f0, ok)) ->
+    rget (running s') i = None /\ lget (cleanup s') (LCont (i, f0)) = Some (i, f0).
+  Proof.
+    intros Hr Hc. destruct lone_exists as [fl Ha].
+    destruct (sync_container (s, cached0 s) (i, f0)) as [sB cB] eqn:HB.
+    assert (S := sync_lone s oc oi i f0 sB cB W L HB).
+    unfold sync_container in HB. cbn [app_name fst] in HB.
+    rewrite Hr in HB. cbn [target_exists] in HB. rewrite Ha in HB.
+    rewrite cached0_cur in HB.
+    assert (Hcur : match cget (cache s) i with Some v => Z.eqb (fst v) f0 | None => false end = false).
+    { destruct (cget (cache s) i) as [[f ok]|] eqn:E; auto. cbn. apply Z.eqb_neq. intros ->. now apply (Hc ok). }
+    rewrite Hcur in HB. inversion HB; subst sB cB; clear HB.
+    rewrite cached0_del in S. destruct S as (_ & S2 & _ & S4 & _). unfold s'. rewrite S2, S4.
+    unfold terminate. rewrite Hr. psimpl. split.
+    - unfold rget. rewrite rget_mdel. now rewrite Z.eqb_refl.
+    - unfold lget. rewrite lget_mset. now rewrite (proj2 (lname_eqb_spec _ _) eq_refl).
+  Qed.
+
+  (** a finished / aborted / oom container that is not running is not started by a resynchronisation *)
+  Lemma sync_no_restart fl :
+    aget (apps s) (i, f0) = Some fl -> flagged fl = true -> rget (running s) i = None ->
+    rget (running s') i <> Some (i, f0).
+  Proof.
+    intros Ha Hfl Hr.
+    destruct (sync_container (s, cached0 s) (i, f0)) as [sB cB] eqn:HB.
+    assert (S := sync_lone s oc oi i f0 sB cB W L HB).
+    unfold sync_container in HB. cbn [app_name fst] in HB.
+    rewrite Hr in HB. change (target_exists s None) with false in HB. cbv iota in HB.
+    rewrite cached0_cur, Ha, Hfl in HB.
+    destruct (target_exists s (lget (cleanup s) (LInst i))) eqn:Et; rewrite ?Et in HB.
+    { inversion HB; subst sB cB; clear HB. rewrite cached0_del in S.
+      destruct S as (_ & S2 & _). unfold s'. rewrite S2, Hr. discriminate. }
+    destruct (cget (cache s) i) as [[f ok]|] eqn:Hc; cbn [fst] in HB.
+    - destruct (Z.eqb f f0) eqn:Ef.
+      + inversion HB; subst sB cB; clear HB. rewrite cached0_del in S.
+        destruct S as (_ & S2 & _). unfold s'. rewrite S2. psimpl. rewrite Hr. discriminate.
+      + inversion HB; subst sB cB; clear HB.
+        unfold cached0 in S. rewrite cached0_get, Hc in S.
+        destruct S as (_ & S2 & _). unfold s'. rewrite S2.
+        unfold configure. psimpl. rewrite Hc. apply Z.eqb_neq in Ef.
+        destruct ok; psimpl.
+        * destruct (aget (apps s) (i, f)); psimpl; unfold rget; rewrite rget_mset, Z.eqb_refl;
+            intros H; inversion H; congruence.
+        * rewrite Hr. discriminate.
+    - inversion HB; subst sB cB; clear HB.
+      unfold cached0 in S. rewrite cached0_get, Hc in S.
+      destruct S as (_ & S2 & _). unfold s'. rewrite S2. psimpl. rewrite Hr. discriminate.
+  Qed.
+
+  (** no stale generation: the instance runs afterwards exactly when its cached manifest can be
+      configured (not in cleanup under its instance name, not finished, configure succeeds) *)
+  Lemma sync_running_lone ok fl :
+    cget (cache s) i = Some (f0, ok) -> aget (apps s) (i, f0) = Some fl ->
+    rget (running s) i = None ->
+    rget (running s') i =
+      if target_exists s (lget (cleanup s) (LInst i)) || flagged fl || negb ok then None else Some (i, f0).
+  Proof.
+    intros Hc Ha Hr.
+    destruct (sync_container (s, cached0 s) (i, f0)) as [sB cB] eqn:HB.
+    assert (S := sync_lone s oc oi i f0 sB cB W L HB).
+    unfold sync_container in HB. cbn [app_name fst] in HB.
+    rewrite Hr in HB. change (target_exists s None) with false in HB. cbv iota in HB.
+    rewrite cached0_cur, Ha, Hc in HB. cbn [fst] in HB. rewrite Z.eqb_refl in HB.
+    destruct (target_exists s (lget (cleanup s) (LInst i))) eqn:Et; rewrite ?Et in HB; cbn [orb].
+    { inversion HB; subst sB cB; clear HB. rewrite cached0_del in S.
+      destruct S as (_ & S2 & _). unfold s'. now rewrite S2. }
+    destruct (flagged fl); cbn [orb].
+    { inversion HB; subst sB cB; clear HB. rewrite cached0_del in S.
+      destruct S as (_ & S2 & _). unfold s'. rewrite S2. psimpl. exact Hr. }
+    unfold configure in HB. rewrite Hc, Ha in HB. destruct ok; cbn [negb]; psimpl.
+    - inversion HB; subst sB cB; clear HB. rewrite cached0_del in S.
+      destruct S as (_ & S2 & _). unfold s'. rewrite S2. psimpl.
+      unfold rget. rewrite rget_mset, Z.eqb_refl. reflexivity.
+    - inversion HB; subst sB cB; clear HB. rewrite cached0_del in S.
+      destruct S as (_ & S2 & _). unfold s'. rewrite S2. psimpl. exact Hr.
+  Qed.
+End Lone.
+
+(** an instance without a container directory is configured exactly when it is cached and configurable *)
+Lemma sync_running_none s oc oi i :
+  wf s -> none i s -> rget (running s) i = None ->
+  rget (running (synchronize s oc oi)) i =
+    match cget (cache s) i with Some (f, true) => Some (i, f) | _ => None end.
+Proof.
+  intros W N Hr. destruct (sync_none s oc oi i W N) as (_ & S2 & _). rewrite S2.
+  destruct (cget (cache s) i) as [[f ok]|] eqn:Hc; auto.
+  unfold configure. rewrite Hc. destruct ok; psimpl; auto.
+  destruct (aget (apps s) (i, f)); psimpl; unfold rget; rewrite rget_mset, Z.eqb_refl; reflexivity.
 Qed.
